@@ -50,8 +50,23 @@ open TLX.Spec.RfcSuite TLX.Spec.KeySchedules TLX.Lemmas.C01Rfc
 
 /-- a code point the tool's table accepts names a suite (C14: the parameters are what the IANA name denotes) -/
 theorem suite_exists (cs : Nat) (h : CipherSuite.resolve cs ≠ none) : ∃ sp, suiteOfCode cs = some sp := by
-  obtain ⟨_, sp, _, h2, _⟩ := resolve_rfc cs h
+  obtain ⟨_, sp, _, h2, _, _, _⟩ := resolve_rfc cs h
   exact ⟨sp, h2⟩
+
+/-- a TLS 1.3 code point (0x13xx) the table accepts names an AEAD suite: `hcls` of `tls13_capture_exact_rfc` has a solution -/
+theorem suite13_class (cs : Nat) (h : CipherSuite.resolve cs ≠ none) (h13 : cs / 256 = 0x13) (sp : SuiteSpec)
+    (hs : suiteOfCode cs = some sp) : ∃ cls, cls13 sp = some cls := by
+  obtain ⟨_, sp', _, h2, _, _, h3⟩ := resolve_rfc cs h
+  rw [hs] at h2; cases h2
+  exact h3 h13
+
+/-- a code point the table accepts, valid for the version (below TLS 1.3), has a record protection: `hcls` of
+    `tls12_capture_exact_rfc` has a solution, with and without encrypt-then-MAC -/
+theorem suite12_class (cs : Nat) (h : CipherSuite.resolve cs ≠ none) (sp : SuiteSpec) (hs : suiteOfCode cs = some sp)
+    (pv : ProtocolVersion) (hv : ValidFor sp pv) (etm : Bool) : ∃ cls, cls12 pv etm sp = some cls := by
+  obtain ⟨_, sp', _, h2, hwf, _, _⟩ := resolve_rfc cs h
+  rw [hs] at h2; cases h2
+  exact cls12_exists pv etm sp hwf hv
 
 theorem exts_wf (sh : Spec.TlsHello.ServerHello) (h : sh.WellFormed) : ∀ e ∈ sh.extensions.getD [], e.ty < 65536 := by
   obtain ⟨_, _, _, _, hx, _⟩ := h
@@ -120,7 +135,7 @@ theorem tls13_capture_exact_rfc (mask : Quic.Dissect.MaskFn) (H : Crypto.Prims) 
     ∃ f, exportFile mask H P args cv.isLegacy (some (C09Found.fileText ls)) (Spec.Containers.encode cv cevs) = .file f ∧
       Exact f (sessionOf (evs.map CEv.cap) (optsOf args ports pm) p0 rest)
         (Spec.TlsConnection.plainOf t.cEvs) (Spec.TlsConnection.plainOf t.sEvs) := by
-  obtain ⟨ps, sp', hres, hsuite', hwf, hargs⟩ := resolve_rfc _ haccept
+  obtain ⟨ps, sp', hres, hsuite', hwf, hargs, _⟩ := resolve_rfc _ haccept
   rw [hsuite] at hsuite'
   cases hsuite'
   have hlabs := labelOf_13
@@ -213,7 +228,7 @@ theorem tls12_capture_exact_rfc (mask : Quic.Dissect.MaskFn) (H : Crypto.Prims) 
     ∃ f, exportFile mask H P args cv.isLegacy (some (C09Found.fileText ls)) (Spec.Containers.encode cv cevs) = .file f ∧
       Exact f (sessionOf (evs.map CEv.cap) (optsOf args ports pm) p0 rest)
         (Spec.TlsConnection.plainOf t.cEvs) (Spec.TlsConnection.plainOf t.sEvs) := by
-  obtain ⟨ps, sp', hres, hsuite', hwf, hargs⟩ := resolve_rfc _ haccept
+  obtain ⟨ps, sp', hres, hsuite', hwf, hargs, _⟩ := resolve_rfc _ haccept
   rw [hsuite] at hsuite'
   cases hsuite'
   obtain ⟨fk, fks, srest, hfound, hsec⟩ := legacy_lines _ ls hls ms hl1 ho1
